@@ -326,8 +326,61 @@ def m_glued(toks):
 MUTATORS = {'glued': m_glued, 'aftercomment': m_aftercomment, 'stray': m_stray, 'unclosed': m_unclosed, 'doubled': m_doubled, 'repeated': m_repeated, 'doubledname': m_doubledname, 'badword': m_badword, 'badvalue': m_badvalue, 'truncated': m_truncated}
 
 
+BAD_BYTES = [b'\xe9', b'\xa4 \xa4', b'\xff\xfe']
+FILE_ROUTES = ['PyDBML(Path)', 'parse_file(str path)', 'parse_file(Path)']
+
+
+def file_outcome(route, path):
+    import pathlib
+    from pydbml import PyDBML
+    try:
+        if route == 'PyDBML(Path)':
+            PyDBML(pathlib.Path(path))
+        elif route == 'parse_file(str path)':
+            PyDBML.parse_file(str(path))
+        else:
+            PyDBML.parse_file(pathlib.Path(path))
+        return 'returned', None
+    except BaseException as e:
+        return type(e).__name__, e
+
+
+def check_undecodable(p, seedname, toks, part, nparts):
+    """bytes that are not UTF-8, at token boundaries of a file the library opens itself: they are unparseable parts of the input and
+    must not be dropped silently (any error is fine; a returned database is not)"""
+    import os
+    import tempfile
+    d = tempfile.mkdtemp(prefix='verif_c07_')
+    try:
+        k = 0
+        for i in range(0, len(toks) + 1, 3):
+            for bad in BAD_BYTES:
+                k += 1
+                if k % nparts != part:
+                    continue
+                data = text_of(toks[:i]).encode('utf8') + b' ' + bad + b' ' + text_of(toks[i:]).encode('utf8')
+                path = os.path.join(d, 'doc.dbml')
+                with open(path, 'wb') as f:
+                    f.write(data)
+                for route in FILE_ROUTES:
+                    got, exc = file_outcome(route, path)
+                    p['evaluations'] += 1
+                    p['nontrivial'].add(digest([seedname, i, bad.hex(), route]))
+                    p['outcomes'][f'undecodable/{got}'] += 1
+                    if got == 'returned':
+                        p['violations'].append(violation(PID, 'malformed-document-accepted', {'fault': 'undecodable', 'seed': seedname, 'boundary': i, 'bytes': bad.hex(), 'route': route},
+                                                         expected='an error', observed=got,
+                                                         detail=f'{route}: file with the non-UTF-8 bytes {bad!r} at token boundary {i} of {seedname} was accepted'))
+    finally:
+        import shutil
+        shutil.rmtree(d, ignore_errors=True)
+
+
 def units(tier, seed):
     us = []
+    for si in (0, 2):
+        for part in range(4):
+            us.append((si, 'undecodable', part, 4))
     for si in range(len(seeds())):
         for fault in list(MUTATORS) + ['notype']:
             if fault == 'aftercomment' and tier == 'quick' and si not in (0, 2):
@@ -349,6 +402,10 @@ def work(unit):
     if got != 'returned':
         p['violations'].append(violation(PID, 'control-rejected', {'seed': name, 'text': text_of(toks)}, observed=got, detail=f'seed {name} does not parse: {got}: {exc}'))
         return p
+    if fault == 'undecodable':
+        check_undecodable(p, name, toks, part, nparts)
+        p['samples'].append({'seed': name, 'fault': fault, 'bytes': [b.hex() for b in BAD_BYTES], 'routes': FILE_ROUTES})
+        return p
     gen = m_notype(m, st) if fault == 'notype' else MUTATORS[fault](toks)
     last = None
     for k, (label, text) in enumerate(gen):
@@ -363,5 +420,10 @@ def work(unit):
 
 def replay(case):
     p = new_part()
+    if case.get('fault') == 'undecodable':
+        for name, m, st in seeds():
+            if name == case['seed']:
+                check_undecodable(p, name, real_tokens(m, st), 0, 1)
+        return [v for v in p['violations'] if v['case'] == case] or p['violations']
     check(p, case['fault'], case['label'], case['text'], case['seed'])
     return p['violations']
